@@ -65,6 +65,13 @@ Q_KINDS = Q_IMPLVISIBLE + STRUCT_KINDS  # qubit-containing per the statement
 C_KINDS = ("lit", "n", "csub", "sfn", "call")
 SUB_KINDS = ("qsub", "csub")
 
+#: generic parameters (a flagged function keeps its flags whatever its parameters are): spelling of the extra
+#: trailing parameter and of the argument a caller passes for it.  `tvar` a type variable, `nvar` an array whose
+#: length is a nat variable (qubit-array arguments of such a callee are typed array[qubit, NV] as well),
+#: `comptime` a comptime nat.  All are classical, so the oracle's verdict does not depend on them.
+GENERIC = {"tvar": ("tg: TV", "1"), "nvar": ("ga: array[int, NV]", "ys"), "comptime": ("cn: nat @comptime", "3")}
+GENERIC_HEADER = 'TV = guppy.type_var("TV")\nNV = guppy.nat_var("NV")\n\n'
+
 REJECT_TITLES = {
     "Unitary constraint violation": "call",
     "Invalid expression in dagger": "dagger",
@@ -201,7 +208,7 @@ def ctx_kind(case):
 
 # ------------------------------------------------------------------------------- rendering
 class Render:
-    PRIO = ["q", "c", "qs", "rs", "xs", "s", "n", "k", "g"]
+    PRIO = ["q", "c", "qs", "rs", "xs", "ys", "s", "n", "k", "g"]
 
     def __init__(self):
         self.header = []
@@ -214,7 +221,8 @@ class Render:
         self.need_struct = False
         self.deep = set()
         self.need_callable = False
-        self.defs = []  # (name, flags) of defined callees
+        self.defs = []  # (name, flags, generic kind or None) of defined callees
+        self.need_generic = False
 
     def param(self, name, ty):
         self.params.setdefault(name, ty)
@@ -284,7 +292,14 @@ class Render:
             name = f"f{self.nf}"
             self.nf += 1
             kws = ", ".join(f"{k}=True" for k in f["kw"])
-            sig = ", ".join(f"a{i}: {ty}" for i, ty in enumerate(tys))
+            gen = f.get("gen")
+            if gen:
+                self.need_generic = True
+                if gen == "nvar":
+                    tys = ["array[qubit, NV]" if ty == "array[qubit, 2]" else ty for ty in tys]
+                    self.param("ys", "array[int, 2]")
+                texts = texts + [GENERIC[gen][1]]
+            sig = ", ".join([f"a{i}: {ty}" for i, ty in enumerate(tys)] + ([GENERIC[gen][0]] if gen else []))
             if kind == "decl":
                 dec = f"@guppy.declare({kws})" if kws else "@guppy.declare"
                 self.header.append(f"{dec}\ndef {name}({sig}) -> {rty}: ...\n")
@@ -292,7 +307,7 @@ class Render:
                 dec = f"@guppy({kws})" if kws else "@guppy"
                 body = {"none": "pass", "int": "return 0", "bool": "return False"}[ret]
                 self.header.append(f"{dec}\ndef {name}({sig}) -> {rty}:\n    {body}\n")
-                self.defs.append((name, kw_flags(f["kw"])))
+                self.defs.append((name, kw_flags(f["kw"]), gen))
             return f"{name}({', '.join(texts)})"
         if kind == "local":
             name = f"g{self.ng}"
@@ -426,7 +441,10 @@ class Render:
             num = name[len(name.rstrip("0123456789")):]
             return (self.PRIO.index(head), name.rstrip("0123456789"), int(num or 0))
 
-        ps = ", ".join(f"{n}: {self.params[n]}" for n in sorted(self.params, key=prio))
+        ps = ", ".join([f"{n}: {self.params[n]}" for n in sorted(self.params, key=prio)]
+                       + [GENERIC[g][0].replace("array[int, NV]", "array[qubit, NV]") for g in case.get("gen", [])])
+        if case.get("gen"):
+            self.need_generic = True
         kws = ", ".join(f"{k}=True" for k in case["fkw"])
         dec = f"@guppy({kws})" if kws else "@guppy"
         warm = ""
@@ -448,6 +466,8 @@ class Render:
         struct = "@guppy.struct\nclass QS:\n    q: qubit\n    n: int\n\n" if self.need_struct else ""
         for k in sorted(self.deep):
             struct += f"@guppy.struct\nclass {DEEP_STRUCTS[k][0]}:\n{DEEP_STRUCTS[k][1]}\n"
+        if self.need_generic:
+            imports += GENERIC_HEADER
         return (runner.PRELUDE + imports + "\n" + struct + "\n".join(self.header)
                 + "\n" + warm + f"\n{dec}\ndef main({ps}) -> {rty}:\n" + "\n".join(lines) + "\n")
 
@@ -547,11 +567,12 @@ def evaluate(case):
         if blocks not in allowed:
             finds.append(("metadata.with_block",
                           f"with-body FuncDefns should carry unitary={own}; found {blocks}\n{src}"))
-        for name, fl in r.defs:
+        for name, fl, _gen in r.defs:
             vs = [v for n, v in defs if n == name]
             if vs != [bits(fl)]:
                 finds.append(("metadata.callee",
                               f"FuncDefn {name} should carry unitary={bits(fl)}; found {vs}\n{src}"))
+        info["generic_flagged"] = bool(case.get("gen") and ff) or any(g and fl for _, fl, g in r.defs)
         return finds, info
     finally:
         lm.dispose()
@@ -607,6 +628,8 @@ def describe(case, reasons):
         seen.add("pos:" + pos)
         seen.add("args:" + mix)
         seen.add("callee:" + ce["f"]["k"])
+        if ce["f"].get("gen"):
+            seen.add("generic:callee:" + ce["f"]["gen"])
         for k in kinds:
             if k in ("qsub", "csub", "qarr", "sfq") + STRUCT_KINDS:
                 seen.add("arg:" + k)
@@ -619,6 +642,8 @@ def describe(case, reasons):
             if t["k"] in ("assign", "annassign", "augassign"):
                 seen.add("has:" + t["k"])
             stack.extend(t.get("b", []) + t.get("o", []))
+    if case.get("gen"):
+        seen.add("generic:main")
     labels.extend(sorted(seen))
     nontrivial = bool(req) and (mixed or cond or nested)
     return labels, nontrivial
@@ -641,6 +666,13 @@ ENUM_CONTEXTS = (
        {"fkw": ["power"], "withs": [["power"]]}, {"fkw": ["unitary"], "withs": [["dagger", "control"]]},
        {"fkw": [], "withs": [["dagger"], ["power"]]}, {"fkw": [], "withs": [["control"], ["dagger"]]},
        {"fkw": [], "withs": [["power"], ["control"]]}]
+)
+
+#: flagged mains with generic parameters (the kind rotates over the kwarg subsets)
+_GEN_ROT = [["tvar"], ["nvar"], ["comptime"], ["tvar", "nvar", "comptime"]]
+ENUM_GENERIC_CONTEXTS = (
+    [{"fkw": kw, "withs": [], "gen": _GEN_ROT[i % 4]} for i, kw in enumerate(kw for kw in subsets(KW) if kw)]
+    + [{"fkw": ["control"], "withs": [["dagger"]], "gen": ["nvar"]}, {"fkw": [], "withs": [["power"]], "gen": ["tvar"]}]
 )
 
 CANON_KW = [[], ["control"], ["dagger"], ["power"], ["control", "dagger"], ["control", "power"],
@@ -677,6 +709,8 @@ def enum_cases():
 
     def place(ctx, ce, pos):
         case = {"fkw": ctx["fkw"], "withs": ctx["withs"], "body": [], "pre": [], "ret": None}
+        if ctx.get("gen"):
+            case["gen"] = ctx["gen"]
         if pos == "return":
             case["ret"] = ce
             case["body"] = [{"k": "pass"}]
@@ -695,7 +729,23 @@ def enum_cases():
             case["body"] = [{"k": pos, "e": ce}]
         return case
 
+    # flagged generic mains: callee flag lattice x a few argument mixes / positions
+    for ctx in ENUM_GENERIC_CONTEXTS:
+        for kw in CANON_KW:
+            f = {"k": "decl", "kw": kw}
+            for mname, mk in mixes:
+                if mname in ("q", "c", "qc", "arr"):
+                    for pos in ("expr", "if", "return"):
+                        yield place(ctx, mk(f), pos)
     for ctx in ENUM_CONTEXTS:
+        # generic callees (declared and defined): flag lattice x kind of generic parameter
+        for kw in CANON_KW:
+            for kind in ("decl", "def"):
+                for gen in GENERIC:
+                    f = {"k": kind, "kw": kw, "gen": gen}
+                    for mname, mk in mixes:
+                        if mname in ("q", "qc", "arr") and (kind == "def" or mname != "qc"):
+                            yield place(ctx, mk(f), "expr" if mname != "qc" else "if")
         # callee flag lattice x argument mix x position
         for kw in CANON_KW:
             for kind in ("decl", "def"):
@@ -803,6 +853,9 @@ def strategies():
         f = {"k": kind}
         if kind in ("decl", "def"):
             f["kw"] = draw(callee_kw(req))
+            gen = draw(st.sampled_from([None, None, None, "tvar", "nvar", "comptime"]))
+            if gen:
+                f["gen"] = gen
         n = draw(st.integers(1, 3))
         args = []
         for _ in range(n):
@@ -859,6 +912,9 @@ def strategies():
         if shape == "with+with":
             withs = [draw(mods), draw(mods)]
         c = {"fkw": fkw, "withs": withs, "pre": [], "ret": None}
+        gen = draw(st.sampled_from([[]] * 4 + _GEN_ROT))
+        if gen:
+            c["gen"] = gen
         ff, _, req = contexts(c)
         c["body"] = draw(st.lists(stmt(req, 0), min_size=1, max_size=3))
         if withs and draw(st.integers(0, 2)) == 0:
@@ -881,6 +937,8 @@ def run_case(ctx, case):
     labels.append("got:" + info["got"])
     if info.get("reason_agrees") is False:
         labels.append("note:rejected_for_other_reason")
+    if info.get("generic_flagged"):
+        labels.append("metadata:generic_flagged_checked")
     from vlib import runner
 
     body = info["src"][len(runner.PRELUDE):].lstrip("\n")
